@@ -14,7 +14,8 @@ RULE = ("all configurations of placed events up to the event bound: per file an 
         "linking; a bystander name y that must not interfere; local-label families: every sequence of <= 5 events over {define 1$, use "
         "1$, ordinary label, include of a file with its own 1$} for '.word 1$' and 'br 1' uses. Oracle = reference resolver written from "
         "the statement: own definition first, else the unique exported one, else an error; duplicate definitions/exports are errors; "
-        "local names bind inside the region between ordinary labels of their own file. Expected bytes follow from the bound definitions. "
+        "local names bind inside the region between ordinary labels of their own file; 13 regions with every pair of regions x 10 local names "
+        "of one and two digits (with and without $) defined or only used. Expected bytes follow from the bound definitions. "
         "state = one configuration; transition = one placed event; non-trivial = distinct (configuration, regime, use form)")
 ASSUMPTIONS = ["configurations the statement leaves open are not generated: one name exported twice by the same file through two means, "
                "'.extern x' in a file that never defines x, local references inside .repeat, a file included twice",
@@ -22,6 +23,37 @@ ASSUMPTIONS = ["configurations the statement leaves open are not generated: one 
 EV = ["D", "E", "L", "G", "X", "A", "U", "R"]   # R = an unrelated '.repeat 2 { nop }' (a nested block compiled inside the file)
 REG = ["first", "last", "none"]
 BASE = {"first": 0o2000, "last": 0o2000, "none": 0o1000}
+
+
+# many regions: local names of several digits in one region and shorter ones in a later region (region numbers reach two digits)
+NSCOPES = 13
+LOCAL_NAMES = ["1", "2", "12", "21", "1$", "2$", "12$", "21$", "3", "13"]
+
+
+def scopes_program(i, a, j, b, a_defined, opener):
+    """the start of the file and 13 regions opened by ordinary labels (or by .repeat 1 blocks before them); region i uses local a, region j defines and uses local b"""
+    lines, words, addr = [], [], 0o1000
+    defs = {}
+    for n in range(0, NSCOPES + 1):
+        if opener == "repeat" and n % 3 == 0:
+            lines.append(".repeat 1 { nop }")
+            words.append(0o240)
+            addr += 2
+        if n:   # region 0 is the start of the file, before any ordinary label
+            lines.append("g%d: nop" % n)
+            words.append(0o240)
+            addr += 2
+        for (reg, name, defined) in ((i, a, a_defined), (j, b, True)):
+            if reg == n and not (reg == j and name == b and (i, a) == (j, b) and defined is not True):
+                if defined:
+                    lines.append("%s: nop" % name)
+                    defs[(n, name)] = addr
+                    words.append(0o240)
+                    addr += 2
+                lines.append("br %s" % name)
+                words.append(("br", n, name, addr))
+                addr += 2
+    return lines, words, defs
 
 
 def bound(tier):
@@ -44,6 +76,8 @@ def cases(tier):
         yield {"k": "include", "s1": list(s1), "total": 4}
     yield {"k": "local"}
     yield {"k": "local-include"}
+    for i in range(0, NSCOPES + 1):
+        yield {"k": "scopes", "i": i}
 
 
 def admissible(seq):
@@ -243,6 +277,39 @@ def check(case, r, tier):
                 for s3 in file_seqs(min(2, rest - len(s2))):
                     if s3:
                         run_config([s1, s2, s3], r)
+        return
+    if k in ("scopes", "scopes-prog"):
+        i = case["i"]
+        combos = [(case["j"], case["a"], case["b"], case["adef"], case["opener"])] if k == "scopes-prog" else [
+            (j, a, b, adef, opener) for j in range(i + 1, NSCOPES + 1) for a in LOCAL_NAMES for b in LOCAL_NAMES for adef in (True, False) for opener in ("label", "repeat")
+            if not (opener == "repeat" and (a, b) not in (("12", "2"), ("2", "12"), ("21$", "1$"), ("1", "1")))]
+        for j, a, b, adef, opener in combos:
+            lines, words, defs = scopes_program(i, a, j, b, adef, opener)
+            text = "\n".join(lines) + "\n"
+            out = driver.assemble([("l.mac", text)])
+            r.states += 1
+            r.trans += 1
+            key = ("scopes", i, j, a, b, adef, opener)
+            c = {"k": "scopes-prog", "i": i, "j": j, "a": a, "b": b, "adef": adef, "opener": opener}
+            if not adef:
+                # region i uses a name that only another region defines (or nobody): never a silent binding
+                r.ran(out.cls(), key=key)
+                if out.status != "fail":
+                    r.violation("local-must-fail:%s:many-regions" % ("accepted" if out.status == "ok" else out.cls()),
+                                "region %d uses local %s that it does not define (region %d defines %s)" % (i, a, j, b), c, "fail", out.brief())
+                continue
+            img = bytearray()
+            for w in words:
+                if isinstance(w, tuple):
+                    _t, n, name, at = w
+                    d = defs[(n, name)] - (at + 2)
+                    w = 0o400 | ((d // 2) & 0xFF)
+                img += bytes([w & 255, w >> 8])
+            good = out.status == "ok" and out.code == bytes(img)
+            r.ran("ok" if good else out.cls(), key=key)
+            if not good:
+                r.violation("local-binding:%s:many-regions" % (out.cls() if out.status != "ok" else "wrong"),
+                            "locals %s (region %d) and %s (region %d) must bind inside their own regions" % (a, i, b, j), c, bytes(img).hex(), out.brief())
         return
     if k == "local":
         for n in range(1, 6):
